@@ -428,9 +428,12 @@ def engine(prop, tier, seed):
         emit_violation(pid, path)
         nviol += 1
     # A broken theorem/build obligation is always reported (a known finding printed in the same run must not
-    # swallow it); a bare model/implementation mismatch is reported unless the run already explained itself
-    # through specification failures.
-    if nviol == 0 and (broken or (mism and not (spec_fails and reported))):
+    # swallow it); a bare model/implementation mismatch is reported unless that very case also failed the
+    # specification (and was reported or is a listed finding).
+    explained = {f["case"] for f in spec_fails}
+    mism_unexplained = [m for m in mism if m["case"] not in explained]
+    if nviol == 0 and (broken or mism_unexplained):
+        mism = mism_unexplained or mism
         first = cases[mism[0]["case"]] if mism else None
         obl = [b.obligation for b in broken] + (["K.%s.%s" % (pid, prop.k_names[0])] if mism else [])
         path = write_replay(pid, seed, {"property": pid, "kind": "obligation no longer checks; no failing input found",
